@@ -182,7 +182,12 @@ func Ob_C08_ClaimReward_Amount() {
 func Ob_C12C13C15_Timeout_Reassign() {
 	w := NewWorld()
 	sym.SetBound("Order.Shards", 1)
-	sym.SetEnumBound("node", nodetypes.NodeKeyPrefix, 2)
+	if sym.Tier() == "quick" {
+		sym.SetEnumBound("node", nodetypes.NodeKeyPrefix, 1)
+		sym.SetBound("Node.TxAddresses", 0)
+	} else {
+		sym.SetEnumBound("node", nodetypes.NodeKeyPrefix, 2)
+	}
 	id := sym.Uint64("orderId")
 	o, found := w.Order.GetOrder(w.Ctx, id)
 	sym.Assume(found && o.Status == ordertypes.OrderDataReady && len(o.Shards) == 1 && o.Id == id)
@@ -217,14 +222,21 @@ func Ob_C12C13C15_Timeout_Reassign() {
 // replica is refunded from the market escrow to the owner's payment address.
 func Ob_C12C04_Timeout_ReplicaReduction() {
 	w := NewWorld()
-	sym.SetBound("Order.Shards", 2)
+	sym.SetBound("Order.Shards", 3)
 	sym.SetEnumBound("node", nodetypes.NodeKeyPrefix, 0)
 	id := sym.Uint64("orderId")
 	o, found := w.Order.GetOrder(w.Ctx, id)
-	sym.Assume(found && o.Status == ordertypes.OrderCompleted && len(o.Shards) == 2 && o.Shards[0] != o.Shards[1] && o.Replica == 2 && o.Id == id)
+	sym.Assume(found && o.Status == ordertypes.OrderCompleted && len(o.Shards) >= 2 && o.Replica == 2 && o.Id == id)
+	// shards: one completed replica, one still waiting (possibly the replacement of an earlier, timed-out one)
 	a, fa := w.Order.GetShard(w.Ctx, o.Shards[0])
-	b, fb := w.Order.GetShard(w.Ctx, o.Shards[1])
-	sym.Assume(fa && fb && a.Status == ordertypes.ShardCompleted && b.Status == ordertypes.ShardWaiting)
+	sym.Assume(fa && a.Status == ordertypes.ShardCompleted)
+	last := o.Shards[len(o.Shards)-1]
+	b, fb := w.Order.GetShard(w.Ctx, last)
+	sym.Assume(fb && b.Status == ordertypes.ShardWaiting && last != o.Shards[0])
+	if len(o.Shards) == 3 {
+		c, fc := w.Order.GetShard(w.Ctx, o.Shards[1])
+		sym.Assume(fc && c.Status == ordertypes.ShardTimeout && o.Shards[1] != o.Shards[0] && o.Shards[1] != last)
+	}
 	sym.Assume(uint64(w.Height())+o.Timeout < o.CreatedAt+o.Duration && uint64(w.Height()) >= o.CreatedAt && uint64(w.Height())-o.CreatedAt > 10*o.Timeout)
 	pa, hasPa := w.Did.GetPaymentAddress(w.Ctx, o.Owner)
 	sym.Assume(hasPa && o.PaymentDid == "")
